@@ -103,6 +103,20 @@ Proof.
 Qed.
 Print Assumptions slice_head_zero_refuted.
 
+(* shape_ok also asks for at most one summarize per SELECT.  Without that the statement is FALSE of the faithful
+   model as well: after an ungrouped summarize the metadata's group_by set is empty, the catalogue accepts a second
+   ungrouped summarize, and compile_ast folds both into ONE SELECT (count over the table's rows instead of the
+   count over the single summarized row).  This is the listed finding F09. *)
+Theorem second_summarize_refuted : exists sch d a c,
+  compile a = Some c /\ accepted sch a = true /\ sem_query d c <> export_ref (sem_ref d a).
+Proof.
+  exists [(1%N, TS SInt64)], [("t"%string, [[VInt 1]; [VInt 2]])],
+         (Summarize (Summarize (Source "t" [("x"%string, 1%N)]) [("n"%string, 2%N, EFn Op_count_star [] false [] [])])
+                    [("m"%string, 3%N, EFn Op_count_star [] false [] [])]).
+  eexists. split; [reflexivity|]. split; [vm_compute; reflexivity|]. vm_compute. discriminate.
+Qed.
+Print Assumptions second_summarize_refuted.
+
 (* ... AND COMPILED CORRECTLY THROUGH A SUBQUERY.  When a verb needs a subquery and the user wrote alias(), the
    front end inserts a subquery marker; compile_ast turns the query built so far into a subquery and starts
    a fresh outer query over its columns.  The transcription (every column in scope is selected in the
